@@ -80,6 +80,16 @@ func init() {
 				buf := r.Pick(0, 1, 2, 3, 4, 8, 16)
 				emit(Case{Op: liveOp(r.Intn(8), buf, randomChunks(r, b)), Tags: []string{"random"}, NonTrivial: true})
 			}
+			// well-formed streams (all message kinds, named universal sysex among them) under every option set
+			for i := 0; i < nresync; i++ {
+				buf := r.Pick(0, 16, 32, 64)
+				w := genWire(r, buf, r.Range(1, 8), r.Pick(0, 10))
+				var b []byte
+				for _, wb := range w {
+					b = append(b, wb.b)
+				}
+				emit(Case{Op: liveOp(i%8, buf, randomChunks(r, b)), Tags: []string{"valid-any-options"}, NonTrivial: true})
+			}
 			for i := 0; i < nresync; i++ {
 				buf := r.Pick(0, 8, 16)
 				g := genGarbage(r, r.Range(0, 12))
